@@ -362,7 +362,7 @@ def _(self, publish_time: REAL, runner: Ref("RunnerBook")):
 
 
 # ----------------------------------------------------------------------------- matching against available prices (config.simulation_available_prices)
-@contract("flumine/simulation/simulatedorder.py::SimulatedOrder._calculate_process_available", tags=["C04"])
+@contract("flumine/simulation/simulatedorder.py::SimulatedOrder._calculate_process_available", tags=["C04", "C05"])
 def _(self, publish_time: REAL, price: REAL, size: MONEY):
     requires("limit_order", is_limit_so(self))
     requires("inv", inv_so(self))
@@ -382,7 +382,7 @@ def _(self, publish_time: REAL, price: REAL, size: MONEY):
 
 
 
-@contract("flumine/simulation/simulatedorder.py::SimulatedOrder._process_available", tags=["C04"])
+@contract("flumine/simulation/simulatedorder.py::SimulatedOrder._process_available", tags=["C04", "C05"])
 def _(self, publish_time: REAL, runner: Ref("RunnerBook")):
     requires("limit_order", is_limit_so(self))
     requires("inv", inv_so(self))
